@@ -53,6 +53,7 @@ PROPS = {
     },
     "C01": {
         "coq": "Properties/C01.v",
+        "coq_extra": ["Properties/C16e.v"],
         "pinchecks": ["PinChecks/PcBody_enf.v", "PinChecks/PcLiterals.v", "PinChecks/PcBody_fmacros.v", "PinChecks/PcEffector.v",
                       "PinChecks/PcBody_fconvert.v", "PinChecks/PcBody_util.v"],
         "gen": "c01",
@@ -61,7 +62,9 @@ PROPS = {
                       "effect-column mapping, declarative combination, an error counting only if reached; empty store = one evaluation with "
                       "empty fields); corollaries no-false-grant/no-false-deny/grant-prefix. The model of the rhai fragment, of tokenisation "
                       "and of the loop is tied to the real crate by a differential run over the documented model family + random matchers, "
-                      "with the matcher text produced by the Gallina printer, and by body-hash/literal pins",
+                      "with the matcher text produced by the Gallina printer, and by body-hash/literal pins. Properties/C16e.v (c16e_escape_print) proves that "
+                      "for every well-formed matcher AST the text the crate evaluates after escape_assertion is exactly the printed AST with its variables turned "
+                      "into the tokens the evaluator looks up",
         "level_note": "trusted: Coq kernel, extraction, harness; modelled not verified: rhai's parser and evaluator on the expression fragment "
                       "(operator precedence, cross-type comparison, lazy errors), serde->Dynamic conversion; string literals containing r./p. "
                       "(escape_assertion rewrites them, D23) and non-ASCII text adjacent to r./p. are outside the generated family",
@@ -324,7 +327,7 @@ PROPS.update({
 PROPS.update({
     "C16": {
         "coq": "Properties/C16.v",
-        "coq_extra": ["Properties/C16q.v", "Properties/C09text.v"],
+        "coq_extra": ["Properties/C16q.v", "Properties/C09text.v", "Properties/C16e.v"],
         "pinchecks": ["PinChecks/PcBody_util.v", "PinChecks/PcBody_model.v", "PinChecks/PcBody_adapters.v", "PinChecks/PcLiterals.v"],
         "gen": "c16",
         "level_text": "Coq theorems at BYTE level over Model/Csv.v and Model/Ini.v (validated against the real functions through the cfg(casbin_verif) hooks): "
@@ -335,7 +338,7 @@ PROPS.update({
                       "Some m under decidable well-formedness, any replacement order); witnesses for every restriction (D17, D18, D21, token inside a longer "
                       "word). The extracted c16_csv_pred / c16_model_equiv are evaluated on the implementation's outputs",
         "partial": "totality on arbitrary text is a Gallina fact for the model; for the real code it is the noise stream under catch_unwind plus body-hash pins; "
-                   "escape_assertion (print_expr e) and the whole-model lift of field-list spacing are shown by examples only",
+                   "the whole-model lift of field-list spacing is shown by examples only (escape_assertion (print_expr e) = print_expr_tok e is now a theorem, C16e.v)",
         "level_note": "trusted: Coq kernel, extraction, harness, the guarded hook re-exports; modelled not verified: the regex crate's find_iter on ESC_C / ESC_A "
                       "(restated as deterministic scanners), Unicode white space beyond ASCII is outside the byte-level model",
         "explanation": "theorems c16_* and c09_* (text); policy lines x layouts, model texts x layouts, to_text round trip, noise / mutated texts",
